@@ -287,6 +287,59 @@ func wedge(tier string, seed int64) (evals, nontriv int, kinds map[string]int, v
 		}
 	}
 	nontriv += 6
+	// the node's OWN truncation loop (not the synchronous hook): weights are announced on a bounded channel while the ledger lock is
+	// held, and the loop takes the ledger lock to truncate - proposals keep arriving from several goroutines across the trigger point
+	if len(viol) == 0 {
+		ver := wallet.NewVerifier()
+		mk := func() *wallet.Wallet { w, _ := wallet.New(); return &w }
+		e := &env{node: mk(), issuer: mk(), recv: mk(), sealer: mk()}
+		ctx, cancelAll := context.WithCancel(context.Background())
+		e.cancel = cancelAll
+		ab, err := accountant.NewAccountingBook(ctx, accountant.Config{Truncate: 2000}, ver, e.node, nolog{})
+		if err != nil {
+			panic(err)
+		}
+		e.ab = ab
+		if _, err := ab.CreateGenesis("Genesis Vertex", spice.New(1<<40, 0), []byte{}, e.issuer.Address()); err != nil {
+			panic(err)
+		}
+		ab.AddTrustedNode(e.node.Address())
+		var wg sync.WaitGroup
+		var made int64
+		var mu sync.Mutex
+		finished := within(120*time.Second, func() {
+			for g := 0; g < 4; g++ {
+				wg.Add(1)
+				go func(g int) {
+					defer wg.Done()
+					for {
+						mu.Lock()
+						made++
+						k := made
+						mu.Unlock()
+						if k > 3300 {
+							return
+						}
+						t, _ := transaction.New(fmt.Sprintf("auto-%d", k), spice.New(0, 0), []byte("d"), e.recv.Address(), e.issuer)
+						e.ab.CreateLeaf(context.Background(), &t)
+					}
+				}(g)
+			}
+			wg.Wait()
+		})
+		evals++
+		kinds["auto-truncation.concurrent_proposals"]++
+		if !finished {
+			add("node-wedged-after:own-truncation-loop", "3300 proposals from 4 goroutines across the node's own truncation trigger (Config.Truncate = 2000) did not complete within 120 s")
+		}
+		time.Sleep(300 * time.Millisecond)
+		probe(e, "own-truncation-loop", "the node's own truncation loop ran under concurrent proposals")
+		sn := e.ab.VerifSnapshot()
+		kinds[fmt.Sprintf("auto-truncation.checkpointed_vertices>0=%v", len(sn.StoredVertices) > 0)]++
+		if len(viol) == 0 {
+			e.close()
+		}
+	}
 	return
 }
 
